@@ -114,7 +114,7 @@ func (g *c08gen) corrupt(f *refFlow) *refFlow {
 	c := *f
 	c.valid = false
 	tok := strings.Fields(f.text)
-	switch g.c(7, "corrupt") {
+	switch g.c(8, "corrupt") {
 	case 0:
 		tok[0] = "allow"
 		c.class = "unknown-action"
@@ -156,6 +156,26 @@ func (g *c08gen) corrupt(f *refFlow) *refFlow {
 	case 6:
 		tok = tok[:2]
 		c.class = "truncated"
+	case 7: // the text stops after the protocol, or the whole "to ..." clause is missing
+		if g.c(2, "cut-at") == 0 {
+			tok = tok[:3]
+		} else {
+			// drop the second endpoint clause (whichever of from / to comes later)
+			seen := 0
+			for i, t := range tok {
+				if t == "to" || t == "from" {
+					seen++
+					if seen == 2 {
+						tok = tok[:i]
+						break
+					}
+				}
+			}
+			if seen < 2 {
+				tok = tok[:3]
+			}
+		}
+		c.class = "missing-clause"
 	}
 	c.text = strings.Join(tok, " ")
 	return &c
@@ -372,6 +392,7 @@ func scenarioC08(r *Run) {
 	peers := []*Peer{p}
 	appsOf := map[*Peer]map[string][]*refFlow{p: apps}
 	seqOf := map[*Peer]uint32{}
+	goneOf := map[*Peer]map[string][]*refFlow{} // applications withdrawn by accepted requests
 	if r.Ch.Choose(3, "two-associations") == 1 {
 		q := r.AddPeer()
 		if q.AssociateRetry() == nil {
@@ -391,6 +412,11 @@ func scenarioC08(r *Run) {
 		switch r.Ch.Choose(4, "what") {
 		case 0: // PFD management
 			n := 1 + r.Ch.Choose(3, "napps")
+			if r.Ch.Choose(6, "withdraw-all") == 1 {
+				// a request without any application: everything provisioned is withdrawn
+				n = 0
+				r.Probe("pfd-request-without-applications")
+			}
 			table := map[string][]*refFlow{}
 			var ies []*ie.IE
 			rejectAt := -1
@@ -467,10 +493,46 @@ func scenarioC08(r *Run) {
 				return
 			}
 			if acc {
-				apps = table // replaces the whole table
+				// replaces the whole table: what the new one does not name is withdrawn
+				if goneOf[p] == nil {
+					goneOf[p] = map[string][]*refFlow{}
+				}
+				for id, fl := range apps {
+					if _, still := table[id]; !still {
+						goneOf[p][id] = fl
+					}
+				}
+				for id := range table {
+					delete(goneOf[p], id)
+				}
+				apps = table
 				r.Accepted++
 			}
 		case 1: // establishment naming an application id
+			if gone := goneOf[p]; len(gone) > 0 && (len(apps) == 0 || r.Ch.Choose(3, "name-withdrawn-app") == 1) {
+				// a PDR names an application that an accepted PFD request has withdrawn:
+				// refused, or at most the UE address - never the withdrawn flow description
+				ids := sortedKeys(gone)
+				id := ids[r.Ch.Choose(len(ids), "which-gone")]
+				s, ue := newSession()
+				uplink := r.Ch.Choose(2, "ul") == 1
+				pd := s.PDRs[1]
+				if uplink {
+					pd = s.PDRs[0]
+				}
+				pd.AppID = id
+				res := p.Establish(s)
+				r.Op("establish with WITHDRAWN application id %s on the %s PDR -> accepted=%v; it used to be: %v", id, map[bool]string{true: "uplink", false: "downlink"}[uplink], res.Accepted, flowTexts(gone[id]))
+				r.Skel(fmt.Sprintf("app-withdrawn:%v:%v", uplink, res.Accepted))
+				r.Probe("pdr-names-withdrawn-application")
+				if res.Accepted {
+					if m := compareFilter(entriesOf(b, s.UPSEID, pd.ID), ueOnly(uplink, ue)); m != "" {
+						r.Violate("C08", "pfd-filter-of-withdrawn-application", "PDR %d names application %s, which an accepted PFD Management Request has withdrawn (it used to be %v), and was installed with a filter: %s", pd.ID, id, flowTexts(gone[id]), m)
+						return
+					}
+				}
+				continue
+			}
 			if len(apps) == 0 {
 				continue
 			}
